@@ -922,4 +922,10 @@ theorem offsetFetch_group_error_visible (v : Int) :
     KV.Spec.Offsets.offsetFetchTopLevelError KV.Gen.Offsets.responseFieldSince v = decide (2 ≤ v) := by
   simp [KV.Spec.Offsets.offsetFetchTopLevelError, KV.Gen.Offsets.responseFieldSince, List.lookup]
 
+/-- **makeError_nil_iff**: the one function every query uses to turn a Kafka error code into a Go error (regenerated
+guard of its `return nil`) reports "no error" for code 0 ONLY — error codes are signed, −1 (UNKNOWN_SERVER_ERROR) is a
+failure like every other non-zero code -/
+theorem makeError_nil_iff (code : Int) : KV.Gen.Offsets.makeErrorIsNil code = true ↔ code = 0 := by
+  simp [KV.Gen.Offsets.makeErrorIsNil]
+
 end KV.Props.C19
